@@ -154,11 +154,84 @@ func (g *FG) Succs(i ssa.Instruction) []ssa.Instruction {
 	}
 	var out []ssa.Instruction
 	for _, s := range b.Succs {
+		// jump threading through a pure boolean merge: `x := a || b` followed by
+		// `if x` makes a block that holds only phi(true, ..., b) and the branch on
+		// it; arriving with a constant, control continues at the matching side
+		if t := threadBoolPhi(b, s); t != nil {
+			s = t
+		}
 		if len(s.Instrs) > 0 {
 			out = append(out, s.Instrs[0])
 		}
 	}
 	return out
+}
+
+// boolMerge recognises a block that consists of phis and an If on one of them
+// (possibly negated); it returns that phi and whether the condition is negated.
+func boolMerge(s *ssa.BasicBlock) (*ssa.Phi, bool) {
+	if len(s.Instrs) < 2 {
+		return nil, false
+	}
+	iff, ok := s.Instrs[len(s.Instrs)-1].(*ssa.If)
+	if !ok || s.Succs[0] == s.Succs[1] {
+		return nil, false
+	}
+	cond, neg := iff.Cond, false
+	for {
+		u, isU := cond.(*ssa.UnOp)
+		if !isU || u.Op != token.NOT {
+			break
+		}
+		cond, neg = u.X, !neg
+	}
+	phi, ok := cond.(*ssa.Phi)
+	if !ok || phi.Block() != s {
+		return nil, false
+	}
+	for _, in := range s.Instrs[:len(s.Instrs)-1] {
+		switch x := in.(type) {
+		case *ssa.Phi:
+		case *ssa.UnOp:
+			if x.Op != token.NOT {
+				return nil, false
+			}
+		case *ssa.DebugRef:
+		default:
+			return nil, false
+		}
+	}
+	// other phis of the block must not be used elsewhere than in the block
+	return phi, neg
+}
+
+// threadBoolPhi: control goes from block `from` to the boolean merge `s`;
+// when the value arriving from `from` is a constant the branch is decided.
+func threadBoolPhi(from, s *ssa.BasicBlock) *ssa.BasicBlock {
+	phi, neg := boolMerge(s)
+	if phi == nil {
+		return nil
+	}
+	// the block must define nothing else that later code reads
+	for _, in := range s.Instrs {
+		if p, ok := in.(*ssa.Phi); ok && p != phi && p.Referrers() != nil && len(*p.Referrers()) > 0 {
+			return nil
+		}
+	}
+	for k, p := range s.Preds {
+		if p != from {
+			continue
+		}
+		v, isC := constBool(phi.Edges[k])
+		if !isC {
+			return nil
+		}
+		if v != neg {
+			return s.Succs[0]
+		}
+		return s.Succs[1]
+	}
+	return nil
 }
 
 // Entry is the first instruction of the function.
@@ -489,6 +562,18 @@ type condEdge struct {
 	False *ssa.BasicBlock
 }
 
+// rawTrue is the CFG successor of the branch taken when the value is true,
+// before jump threading through a boolean merge.
+func (e condEdge) rawTrue() *ssa.BasicBlock {
+	b := e.If.Block()
+	for _, s := range b.Succs {
+		if s == e.True || threadBoolPhi(b, s) == e.True {
+			return s
+		}
+	}
+	return e.True
+}
+
 // branchesOn finds the If instructions that branch directly on v (possibly
 // negated through UnOp !). Short-circuit operators appear as chains of Ifs on
 // the individual operands, so this is per leaf.
@@ -500,11 +585,30 @@ func branchesOn(v ssa.Value) []condEdge {
 	for _, r := range *v.Referrers() {
 		switch x := r.(type) {
 		case *ssa.If:
-			out = append(out, condEdge{x, x.Block().Succs[0], x.Block().Succs[1]})
+			t, f := x.Block().Succs[0], x.Block().Succs[1]
+			if th := threadBoolPhi(x.Block(), t); th != nil {
+				t = th
+			}
+			if th := threadBoolPhi(x.Block(), f); th != nil {
+				f = th
+			}
+			out = append(out, condEdge{x, t, f})
 		case *ssa.UnOp:
 			if x.Op == token.NOT {
 				for _, e := range branchesOn(x) {
 					out = append(out, condEdge{e.If, e.False, e.True})
+				}
+			}
+		case *ssa.Phi:
+			// the value is one input of a boolean merge that is branched on
+			// (`x := a || b || v; if x`): for control arriving with v, the
+			// merge's branch is a branch on v
+			if phi, neg := boolMerge(x.Block()); phi == x {
+				iff := x.Block().Instrs[len(x.Block().Instrs)-1].(*ssa.If)
+				if neg {
+					out = append(out, condEdge{iff, x.Block().Succs[1], x.Block().Succs[0]})
+				} else {
+					out = append(out, condEdge{iff, x.Block().Succs[0], x.Block().Succs[1]})
 				}
 			}
 		}
@@ -659,6 +763,69 @@ func blockPaths(b *ssa.BasicBlock, limit int) (paths [][]*ssa.BasicBlock, ok boo
 	return
 }
 
+// blockPathsE is blockPaths for paths that begin with the CFG edge from -> b:
+// the edge is part of the path, so that what is known from taking it (the
+// branch condition of `from`) takes part in the feasibility test.
+func blockPathsE(from, b *ssa.BasicBlock, limit int) (paths [][]*ssa.BasicBlock, ok bool) {
+	ok = true
+	cur := []*ssa.BasicBlock{from}
+	on := map[*ssa.BasicBlock]bool{}
+	var walk func(x *ssa.BasicBlock)
+	walk = func(x *ssa.BasicBlock) {
+		if !ok || on[x] {
+			return
+		}
+		cur = append(cur, x)
+		on[x] = true
+		if len(x.Succs) == 0 {
+			if len(paths) >= limit {
+				ok = false
+			} else if pathFeasible(cur) {
+				paths = append(paths, append([]*ssa.BasicBlock(nil), cur...))
+			}
+		}
+		for _, s := range x.Succs {
+			walk(s)
+		}
+		on[x] = false
+		cur = cur[:len(cur)-1]
+	}
+	walk(b)
+	return
+}
+
+// resolveStrict follows only the phis the path decides (a phi in a block of
+// the path other than its first block); any other value, including a phi the
+// path says nothing about, is returned as it is.
+func resolveStrict(v ssa.Value, path []*ssa.BasicBlock) ssa.Value {
+	pos := map[*ssa.BasicBlock]int{}
+	for i, b := range path {
+		pos[b] = i
+	}
+	for depth := 0; depth < 32; depth++ {
+		phi, ok := v.(*ssa.Phi)
+		if !ok {
+			return v
+		}
+		i, on := pos[phi.Block()]
+		if !on || i == 0 {
+			return v
+		}
+		found := false
+		for k, p := range phi.Block().Preds {
+			if p == path[i-1] {
+				v = phi.Edges[k]
+				found = true
+				break
+			}
+		}
+		if !found {
+			return v
+		}
+	}
+	return v
+}
+
 // pathFeasible rejects a block path that takes a branch contradicting what
 // the path itself determines: an `x == nil` / `x != nil` test whose operand,
 // resolved along the path, is the nil constant (or a value that is certainly
@@ -666,6 +833,7 @@ func blockPaths(b *ssa.BasicBlock, limit int) (paths [][]*ssa.BasicBlock, ok boo
 // an allocation) while the path takes the other edge. Only single, definite
 // resolutions prune; everything else is kept (over-approximation).
 func pathFeasible(path []*ssa.BasicBlock) bool {
+	facts := map[ssa.Value]bool{}
 	for i := 0; i+1 < len(path); i++ {
 		b := path[i]
 		if len(b.Instrs) == 0 {
@@ -674,6 +842,38 @@ func pathFeasible(path []*ssa.BasicBlock) bool {
 		iff, ok := b.Instrs[len(b.Instrs)-1].(*ssa.If)
 		if !ok || b.Succs[0] == b.Succs[1] {
 			continue
+		}
+		// a boolean condition whose value the path determines: a flag merged from
+		// constants (`closeAfter := false; if c {closeAfter = true}; ...; if
+		// closeAfter`), or a value the path has already branched on (correlated
+		// branches: `x := a || b; if x {...}; ...; if x {...}`)
+		{
+			cond, neg := iff.Cond, false
+			for {
+				u, isU := cond.(*ssa.UnOp)
+				if !isU || u.Op != token.NOT {
+					break
+				}
+				cond, neg = u.X, !neg
+			}
+			if _, isBin := cond.(*ssa.BinOp); !isBin {
+				leaf := resolveStrict(cond, path[:i+1])
+				taken := (path[i+1] == b.Succs[0]) != neg // truth of leaf on this path
+				if v, isC := constBool(leaf); isC {
+					if v != taken {
+						return false
+					}
+					continue
+				}
+				if prev, known := facts[leaf]; known {
+					if prev != taken {
+						return false
+					}
+				} else {
+					facts[leaf] = taken
+				}
+				continue
+			}
 		}
 		bin, ok := iff.Cond.(*ssa.BinOp)
 		if !ok || (bin.Op != token.EQL && bin.Op != token.NEQ) {
@@ -1643,6 +1843,30 @@ func returnClassesFrom(b *ssa.BasicBlock, idx int, limit int) (classes map[strin
 	return classes, len(paths), true
 }
 
+// returnClassesFromEdge is returnClassesFrom for the paths that begin with
+// the edge from -> to.
+func returnClassesFromEdge(from, to *ssa.BasicBlock, idx int, limit int) (classes map[string]bool, npaths int, ok bool) {
+	classes = map[string]bool{}
+	paths, ok := blockPathsE(from, to, limit)
+	if !ok {
+		return classes, 0, false
+	}
+	for _, p := range paths {
+		last := p[len(p)-1]
+		r, isRet := last.Instrs[len(last.Instrs)-1].(*ssa.Return)
+		if !isRet {
+			classes["panic"] = true
+			continue
+		}
+		for _, v := range retVals(r, idx) {
+			for _, leaf := range resolveOnPath(v, p) {
+				classes[errClass(leaf)] = true
+			}
+		}
+	}
+	return classes, len(paths), true
+}
+
 func keys(m map[string]bool) []string {
 	var out []string
 	for k := range m {
@@ -1814,4 +2038,151 @@ func isParamVal(v ssa.Value, p *ssa.Parameter) bool {
 		}
 	}
 	return true
+}
+
+// lockPairRule: every lock taken in a function of the given packages is
+// released on every path to every exit of that function (by an unlock on the
+// path or by a deferred unlock registered before the exit). An early return
+// added inside a critical section, or an unlock that only some branches reach,
+// leaves the lock held: the next caller blocks for good. Functions whose
+// contract is to return with a lock held are listed in lockWrappers.
+var lockWrappers = map[string]string{}
+
+func lockPairRule(r *Report, rels ...string) {
+	n := 0
+	for _, f := range r.W.Funcs(rels...) {
+		hasLock := false
+		for _, in := range instrs(f) {
+			if c, ok := in.(*ssa.Call); ok {
+				if op, isOp := lockOps[calleeName(c)]; isOp && op[0] == '+' {
+					hasLock = true
+				}
+			}
+		}
+		if !hasLock {
+			continue
+		}
+		if why, isW := lockWrappers[fnName(f)]; isW {
+			r.Note("lock pairing: %s not judged (%s)", fnName(f), why)
+			continue
+		}
+		r.Touch(f)
+		n++
+		may := lockStatesMay(f)
+		g := G(f)
+		// deferred unlocks by lock key
+		type du struct {
+			key string
+			at  ssa.Instruction
+		}
+		var dus []du
+		for _, in := range instrs(f) {
+			d, ok := in.(*ssa.Defer)
+			if !ok {
+				continue
+			}
+			if op, isOp := lockOps[calleeName(d)]; isOp && op[0] == '-' {
+				dus = append(dus, du{op[1:] + ":" + pathOf(d.Call.Args[0]), d})
+			}
+			// defer func() { mu.Unlock() }()
+			if mc, isMC := d.Call.Value.(*ssa.MakeClosure); isMC {
+				if fn, isFn := mc.Fn.(*ssa.Function); isFn {
+					for _, in2 := range instrs(fn) {
+						if c2, isC := in2.(*ssa.Call); isC {
+							if op, isOp := lockOps[calleeName(c2)]; isOp && op[0] == '-' {
+								if v := resolveFree(c2.Call.Args[0]); v != nil {
+									dus = append(dus, du{op[1:] + ":" + pathOf(v), d})
+								}
+							}
+						}
+					}
+				}
+			}
+		}
+		bad := ""
+		var pos token.Pos
+		for _, in := range instrs(f) {
+			var exit ssa.Instruction
+			switch x := in.(type) {
+			case *ssa.Return:
+				exit = x
+			case *ssa.Panic:
+				if x.Pos().IsValid() {
+					exit = x
+				}
+			}
+			if exit == nil {
+				continue
+			}
+			for key := range may[exit] {
+				released := false
+				for _, d := range dus {
+					if d.key == key && (g.Before(d.at, exit) || g.PathTo([]ssa.Instruction{g.Entry()}, true, func(i ssa.Instruction) bool { return i == d.at }, func(i ssa.Instruction) bool { return i == exit }) == nil) {
+						released = true
+					}
+				}
+				if !released {
+					bad = key
+					pos = exit.Pos()
+				}
+			}
+		}
+		r.Decide("lockset", fnName(f)+": every lock it takes is released on every exit", bad == "", "no lock can still be held at a return (unlock on the path, or deferred before it)", fmt.Sprintf("lock %s may still be held when the function returns (an exit inside the critical section, or an unlock that not every branch reaches): the next user of the lock blocks for ever", bad), pos)
+	}
+	if n == 0 {
+		r.Note("lock pairing: no function of %v takes a lock", rels)
+	}
+}
+
+// infallibleWriters: writes into in-memory buffers whose error result is
+// documented to be always nil.
+var infallibleWriters = map[string]bool{
+	"(*strings.Builder).WriteString": true, "(*strings.Builder).Write": true, "(*strings.Builder).WriteByte": true, "(*strings.Builder).WriteRune": true,
+	"(*bytes.Buffer).WriteString": true, "(*bytes.Buffer).Write": true, "(*bytes.Buffer).WriteByte": true, "(*bytes.Buffer).WriteRune": true,
+}
+
+// concatOperands flattens a string built by `+` and fmt.Sprintf into its
+// operands in left-to-right order (Sprintf contributes its arguments in order).
+func concatOperands(v ssa.Value) []ssa.Value {
+	switch x := v.(type) {
+	case *ssa.BinOp:
+		if x.Op == token.ADD {
+			return append(concatOperands(x.X), concatOperands(x.Y)...)
+		}
+	case *ssa.Call:
+		if calleeName(x) == "fmt.Sprintf" && len(x.Call.Args) == 2 {
+			if sl, ok := x.Call.Args[1].(*ssa.Slice); ok {
+				if arr, ok := sl.X.(*ssa.Alloc); ok && arr.Referrers() != nil {
+					type el struct {
+						idx int64
+						v   ssa.Value
+					}
+					var els []el
+					for _, u := range *arr.Referrers() {
+						ia, ok := u.(*ssa.IndexAddr)
+						if !ok || ia.Referrers() == nil {
+							continue
+						}
+						k, _ := constInt(ia.Index)
+						for _, uu := range *ia.Referrers() {
+							if st, ok := uu.(*ssa.Store); ok && st.Addr == ssa.Value(ia) {
+								val := st.Val
+								if mi, isMI := val.(*ssa.MakeInterface); isMI {
+									val = mi.X
+								}
+								els = append(els, el{k, val})
+							}
+						}
+					}
+					sort.Slice(els, func(i, j int) bool { return els[i].idx < els[j].idx })
+					var out []ssa.Value
+					for _, e := range els {
+						out = append(out, concatOperands(e.v)...)
+					}
+					return out
+				}
+			}
+		}
+	}
+	return []ssa.Value{v}
 }
